@@ -206,6 +206,10 @@ fn run_case(cx: &CaseCtx, rep: &mut Report) {
 		siblings(cx, rep, &mut rng);
 		return;
 	}
+	if cx.case == 29 || cx.case == 30 {
+		many_tiles_on_one_level(cx, rep, &mut rng, if cx.case == 29 { "mbtiles" } else { "tar" });
+		return;
+	}
 	let target = if (13..=15).contains(&cx.case) || cx.case == 20 {
 		"pmtiles"
 	} else if (16..=18).contains(&cx.case) {
@@ -726,6 +730,77 @@ fn empty_tile_set(cx: &CaseCtx, rep: &mut Report, rng: &mut Rng) {
 			Ok(Ok((n, covered))) => {
 				if n > 0 || covered > 0 {
 					rep.violation(&format!("{target}|empty|tiles-from-nowhere"), "a container written from the empty tile set returns or advertises tiles", witness(json!({"streamed": n, "advertised": covered})));
+				}
+			}
+		}
+	}
+	let _ = std::fs::remove_dir_all(&dir);
+}
+
+/// One level with 90 000 tiles (300 x 300, more than 2^16): whatever a reader or writer does in pages, chunks or
+/// batches meets a boundary inside a row here. Every tile by lookup, the whole level by one stream.
+fn many_tiles_on_one_level(cx: &CaseCtx, rep: &mut Report, rng: &mut Rng, target: &str) {
+	let dir = cx.fresh_dir("c01m");
+	let (format, comp) = *rng.pick(&pairs_for(target));
+	let z = 9u8;
+	let (x0, y0) = (rng.range(0, 200) as u32, rng.range(0, 200) as u32);
+	let mut tiles = std::collections::BTreeMap::new();
+	for y in 0..300u32 {
+		for x in 0..300u32 {
+			tiles.insert((z, x0 + x, y0 + y), format!("T:{z}/{}/{};", x0 + x, y0 + y).into_bytes());
+		}
+	}
+	let ts = TileSet { format, comp, tiles, tilejson: gen::gen_tilejson(rng, format), shape: "300 x 300 tiles on z9".into(), really_compressed: false };
+	let path = container_path(&dir, target);
+	cx.progress(&format!("{target}: 90000 tiles on one level"));
+	let mut src = MemSource::new(&ts);
+	rep.eval();
+	rep.count(&format!("roundtrips_{target}"), 1);
+	let witness = |extra: serde_json::Value| json!({"target": target, "tileset": ts.describe(), "detail": extra});
+	match guard::catch(|| guard::block_on(write_to_filename(&mut src, path.to_str().unwrap()))) {
+		Err(p) => {
+			rep.violation(&p.signature(&format!("write-{target}")), "writing the container panicked", witness(json!({"panic": p.describe()})));
+			return;
+		}
+		Ok(Err(e)) => {
+			rep.violation(&format!("{target}|write-failed"), "writing the container failed", witness(json!({"error": format!("{e:#}")})));
+			return;
+		}
+		Ok(Ok(())) => {}
+	}
+	match guard::catch(|| guard::block_on(get_reader(path.to_str().unwrap()))) {
+		Err(p) => rep.violation(&p.signature(&format!("open-{target}")), "opening the written container panicked", witness(json!({"panic": p.describe()}))),
+		Ok(Err(e)) => rep.violation(&format!("{target}|open-failed|other"), "the written container cannot be opened", witness(json!({"error": format!("{e:#}")}))),
+		Ok(Ok(reader)) => {
+			let o = ReaderCheckOpts { exact_coverage: false, check_streams: true, multi_thread: false, extra_random: 10 };
+			let (findings, st) = check::check_reader(reader.as_ref(), &ts.tiles, rng, &o);
+			rep.count("lookups", st.lookups);
+			rep.count("streamed_tiles", st.streamed_tiles);
+			rep.count("levels_with_more_than_65536_tiles", 1);
+			for f in findings.iter() {
+				let sig = if f.kind.ends_with("panic") { f.detail["sig"].as_str().unwrap_or(&f.kind).to_string() } else { format!("{target}|{}", f.kind) };
+				rep.violation(&sig, "round trip through the repo's reader differs from the source", witness(f.detail.clone()));
+			}
+			// the whole level in one stream
+			let bbox = TileBBox::new(z, x0, y0, x0 + 299, y0 + 299).unwrap();
+			match guard::catch(|| guard::block_on(async { reader.get_bbox_tile_stream(bbox).await.collect().await })) {
+				Err(p) => rep.violation(&p.signature(&format!("stream-{target}")), "streaming a level of 90000 tiles panicked", witness(json!({"panic": p.describe()}))),
+				Ok(items) => {
+					let mut seen = std::collections::BTreeSet::new();
+					let mut wrong = 0u64;
+					for (c, b) in &items {
+						let k = crate::gen::key_of(c);
+						if !seen.insert(k) || ts.tiles.get(&k).map(|v| v.as_slice()) != Some(b.as_slice()) {
+							wrong += 1;
+						}
+					}
+					rep.evals(items.len() as u64);
+					if wrong > 0 || seen.len() != ts.tiles.len() {
+						let missing: Vec<String> = ts.tiles.keys().filter(|k| !seen.contains(k)).take(3).map(|k| format!("{}/{}/{}", k.0, k.1, k.2)).collect();
+						rep.violation(&format!("{target}|level-stream-incomplete"), "the stream of a level with more than 65536 tiles does not deliver every tile once", witness(json!({"delivered": items.len(), "distinct": seen.len(), "stored": ts.tiles.len(), "wrong_or_repeated": wrong, "first_missing": missing})));
+					} else {
+						rep.nontrivial(ts.fingerprint() ^ crate::rng::fnv(target.as_bytes()));
+					}
 				}
 			}
 		}
